@@ -562,6 +562,13 @@ func (s *state) do(line string) {
 	case "exitprobe":
 		exitBroadcastFailureProbe(s.run)
 		s.run.Emit("exitprobe", "done")
+	case "arbids":
+		sd := uint64(1)
+		if len(ws) > 1 {
+			sd, _ = strconv.ParseUint(ws[1], 10, 64)
+		}
+		arbIDsProbe(s.run, sd)
+		s.run.Emit(fmt.Sprintf("arbids %d", sd), "done")
 	case "decide":
 		if s.cur == nil {
 			s.run.Emit(line, "bad-op")
@@ -924,6 +931,13 @@ func main() {
 		s.do(fmt.Sprintf("quorum n=%d", n))
 	}
 	s.do("exitprobe")
+	arb := 400
+	if run.Tier == "quick" {
+		arb = 60
+	}
+	for i := 0; i < arb && run.N > 0; i++ {
+		s.do(fmt.Sprintf("arbids %d", r.U64()%1000000))
+	}
 	sys := 720
 	if run.Tier == "quick" {
 		sys = 240
